@@ -112,8 +112,9 @@ func MaskedLines(sql string) []string {
 					line = append(line, b[j])
 				}
 			}
-			if len(line) == 0 && i < len(b) && mask[i] {
-				line = append(line, maskByte)
+			if i < len(b) && mask[i] && (len(line) == 0 || (len(line) == 1 && line[0] == '\r')) {
+				// (with CR-LF line ends the empty line holds the carriage return)
+				line = append([]byte{maskByte}, line...)
 			}
 			lines = append(lines, string(line))
 			start = i + 1
